@@ -193,3 +193,48 @@ pub fn resolve_imports(files: &[(String, String)], root: usize) -> ImportOutcome
         Err(p) => ImportOutcome::Panic(p),
     }
 }
+
+// ---------------------------------------------------------------- printing
+
+use nitrogql_printer::GraphQLPrinter;
+use sourcemap_writer::{JsStringWriter, JustWriter};
+
+/// parse with nitrogql and print the parsed document back with nitrogql's GraphQL printer
+pub fn parse_and_print_exec(text: &str) -> Result<(String, Option<String>), Fail> {
+    match guarded(|| {
+        parse_operation_document(text).map(|d| {
+            let mut a = String::new();
+            d.print_graphql(&mut JustWriter::new(&mut a));
+            let b = resolve_operation_extensions(d).ok().map(|(doc, _)| {
+                let mut b = String::new();
+                doc.print_graphql(&mut JustWriter::new(&mut b));
+                b
+            });
+            (a, b)
+        })
+    }) {
+        Err(p) => Err(Fail::Panic(p)),
+        Ok(Err(e)) => Err(perr(e)),
+        Ok(Ok(x)) => Ok(x),
+    }
+}
+
+/// (plain printing, the same through the JS template-literal writer)
+pub fn parse_and_print_ts(text: &str) -> Result<(String, String), Fail> {
+    match guarded(|| {
+        parse_type_system_document(text).map(|d| {
+            let mut a = String::new();
+            d.print_graphql(&mut JustWriter::new(&mut a));
+            let mut b = String::new();
+            {
+                let mut w = JsStringWriter::new(&mut b);
+                d.print_graphql(&mut w);
+            }
+            (a, b)
+        })
+    }) {
+        Err(p) => Err(Fail::Panic(p)),
+        Ok(Err(e)) => Err(perr(e)),
+        Ok(Ok(x)) => Ok(x),
+    }
+}
